@@ -45,7 +45,8 @@ def tgt(path, query):
 def gen_chain(rng, maxlen):
     """-> (line, expected walk [(host, target)], expected final (code, body), followed hops)"""
     n = rng.randint(0, maxlen)
-    follow = rng.random() < 0.9
+    fmode = rng.choice(['1'] * 17 + ['0', '0', 'd'])      # 'd' = builder default: with_redirects never called
+    follow = fmode == '1'
     method = rng.choice(['GET'] * 7 + ['DELETE', 'POST', 'PUT'])
     body = bytes(rng.getrandbits(8) for _ in range(rng.randint(0, 40))) if method in ('POST', 'PUT') else None
     cookies = [(rng.choice(['k', 'sid', 'a']), rng.choice(['v', '1', 'x y'])) for _ in range(rng.choice([0, 0, 1, 2]))]
@@ -94,7 +95,7 @@ def gen_chain(rng, maxlen):
     final = (first[0], first[2]) if first else (fcode, fbody)
     ents = [ent(h, t, c, l, b) for (h, t), (c, l, b) in table.items()]
     rng.shuffle(ents)
-    line = 'redirect %s %s %s %d %s %s' % (method, hx(url), hx(body) if body else '-', int(follow),
+    line = 'redirect %s %s %s %s %s %s' % (method, hx(url), hx(body) if body else '-', fmode,
                                           '+'.join('%s=%s' % (hx(k), hx(v)) for k, v in cookies) or '-', ','.join(ents) or '-')
     return line, walk, final, (len(walk) - 1 if follow else 0)
 
